@@ -281,8 +281,11 @@ class UTPM(Ring, RawAlgorithmsMixIn):
         ybar, dummy, xbar = out
         # print 'xbar =', xbar
         # print 'ybar =', ybar
-        xbar += ybar[sl]
+        # clear the adjoint of the overwritten entries first: x may be a view
+        # of y[sl] itself (y[sl] = y[sl]), in which case xbar is ybar[sl]
+        tmp = ybar[sl].copy()
         ybar[sl].data[...] = 0.
+        xbar += tmp
         # print 'funcargs=',funcargs
         # print y[funcargs[0]]
 
